@@ -42,6 +42,11 @@ STRAIGHT = [
          writes=["QoS", "noLocal", "retainAsPublished", "retainHandling"], ret="Int"),
     dict(file="FnValidate", src="client.py", qual="Client._filter_wildcard_len_check", name="filterWildcardLenCheck",
          params=[("sub", "Bytes")], attrs=[], writes=[], ret="Int"),
+    # (prefix=True: the statements before the first loop only - here the computation of the next back-off delay, before the loop
+    # that sleeps it away in slices; the result is the local named by `ret_local`)
+    dict(file="FnBackoff", src="client.py", qual="Client._reconnect_wait", name="reconnectWaitDelay", params=[], prefix=True,
+         attrs=[("_reconnect_delay", "OptInt"), ("_reconnect_min_delay", "Int"), ("_reconnect_max_delay", "Int")],
+         writes=["_reconnect_delay"], ret="Int", ret_local="remaining", clock_param="now"),
     dict(file="FnInfo", src="client.py", qual="MQTTMessageInfo.is_published", name="isPublished", params=[],
          attrs=[("rc", "Int"), ("_published", "Bool")], writes=[], ret="Bool"),
     dict(file="FnValidate", src="client.py", qual="Client._raise_for_invalid_topic", name="raiseForInvalidTopic",
@@ -165,10 +170,25 @@ class Tr:
                 and e.func.value.id == "self" and e.func.attr in self.cfg.get("calls", {}) and not e.args and not e.keywords:
             callee, attrs, rt = self.cfg["calls"][e.func.attr]
             return f"(← {callee} " + " ".join("self_" + a.lstrip("_") for a in attrs) + ")", rt
+        if isinstance(e, ast.Compare) and len(e.ops) == 1 and isinstance(e.ops[0], (ast.Is, ast.IsNot)) \
+                and isinstance(e.comparators[0], ast.Constant) and e.comparators[0].value is None \
+                and isinstance(e.left, ast.Attribute) and isinstance(e.left.value, ast.Name) and e.left.value.id == "self" \
+                and self.types.get("self." + e.left.attr) == "OptInt":
+            v = "self_" + e.left.attr.lstrip("_")
+            return (f"({v}).isNone" if isinstance(e.ops[0], ast.Is) else f"({v}).isSome"), "Bool"
+        if isinstance(e, ast.Call) and isinstance(e.func, ast.Name) and e.func.id in ("min", "max") and len(e.args) == 2 and not e.keywords:
+            a, ta = self.expr(e.args[0])
+            b, tb = self.expr(e.args[1])
+            if ta != "Int" or tb != "Int":
+                raise Missing(f"{e.func.id}() of {ta}, {tb}")
+            return f"({e.func.id} {a} {b})", "Int"
         if isinstance(e, ast.Attribute) and isinstance(e.value, ast.Name) and e.value.id == "self":
             key = "self." + e.attr
             if key not in self.types:
                 raise Missing(f"unknown attribute {key}")
+            if self.types[key] == "OptInt":
+                # an int-or-None attribute used as a number: TypeError when it is None
+                return f"(← Py.optGet self_{e.attr.lstrip('_')})", "Int"
             return "self_" + e.attr.lstrip("_"), self.types[key]
         if isinstance(e, ast.IfExp):
             c = self.test(e.test)
@@ -330,7 +350,12 @@ class Tr:
         for s in body:
             if isinstance(s, ast.Expr) and isinstance(s.value, ast.Constant) and isinstance(s.value.value, str):
                 continue                                   # docstring
-            if isinstance(s, ast.Assign) and len(s.targets) == 1 and isinstance(s.targets[0], ast.Name):
+            if isinstance(s, ast.Assign) and len(s.targets) == 1 and isinstance(s.targets[0], ast.Name) and isinstance(s.value, ast.Call) \
+                    and isinstance(s.value.func, ast.Name) and s.value.func.id == "time_func" and not s.value.args and self.cfg.get("clock_param"):
+                if s.targets[0].id != self.cfg["clock_param"] or s.targets[0].id in self.types:
+                    raise Missing("time_func() read more than once / into another name")
+                self.types[s.targets[0].id] = "Int"          # the parameter
+            elif isinstance(s, ast.Assign) and len(s.targets) == 1 and isinstance(s.targets[0], ast.Name):
                 n = s.targets[0].id
                 if isinstance(s.value, ast.List) and not s.value.elts:
                     v, t = "([] : List Int)", "List Int"
@@ -347,6 +372,8 @@ class Tr:
                     and isinstance(s.targets[0].value, ast.Name) and s.targets[0].value.id == "self":
                 key = "self." + s.targets[0].attr
                 v, t = self.expr(s.value)
+                if self.types.get(key) == "OptInt" and t == "Int":
+                    v, t = f"(some {v})", "OptInt"
                 if self.types.get(key) != t:
                     raise Missing(f"{key} assigned a {t}")
                 out.append(f"{pad}self_{s.targets[0].attr.lstrip('_')} := {v}")
@@ -473,12 +500,22 @@ class Tr:
         cfg, fn = self.cfg, self.fn
         for a, t in cfg["attrs"]:
             self.types["self." + a] = t
-        if any(isinstance(n, (ast.While, ast.For)) for n in ast.walk(fn)):
+        fbody = list(fn.body)
+        if cfg.get("prefix"):
+            k = next((i for i, st in enumerate(fbody) if isinstance(st, (ast.While, ast.For))), None)
+            if k is None:
+                raise Missing("no loop to stop at")
+            fbody = fbody[:k]
+            if any(isinstance(n, (ast.While, ast.For, ast.Return)) for st in fbody for n in ast.walk(st)):
+                raise Missing("loop / return before the top-level loop")
+        elif any(isinstance(n, (ast.While, ast.For)) for n in ast.walk(fn)):
             raise Missing("loop in a function configured as loop-free")
         self.ret_suffix = ["self_" + a.lstrip("_") for a in cfg["writes"]]
-        body = self.stmts(fn.body, 1, None)
-        params = " ".join([f"(self_{a.lstrip('_')} : {t})" for a, t in cfg["attrs"]] + [f"({lname(n)} : {t})" for n, t in cfg["params"]])
-        rtype = "(" + " × ".join([cfg["ret"]] + [dict(cfg["attrs"])[a] for a in cfg["writes"]]) + ")" if cfg["writes"] else cfg["ret"]
+        body = self.stmts(fbody, 1, None)
+        LT = lambda t: "Option Int" if t == "OptInt" else t  # noqa: E731
+        params = " ".join([f"(self_{a.lstrip('_')} : {LT(t)})" for a, t in cfg["attrs"]] + [f"({lname(n)} : {t})" for n, t in cfg["params"]]
+                          + ([f"({cfg['clock_param']} : Int)"] if cfg.get("clock_param") else []))
+        rtype = "(" + " × ".join([cfg["ret"]] + [LT(dict(cfg["attrs"])[a]) for a in cfg["writes"]]) + ")" if cfg["writes"] else cfg["ret"]
         where = f"{cfg['src']} {cfg['qual']} (line {fn.lineno})"
         L = [f"/-- {where}; attributes of `self` read: {', '.join(a for a, _ in cfg['attrs'])}; returned with the result: {', '.join(cfg['writes']) or 'none'} -/",
              f"def {cfg['name']} {params} : Except Exc {rtype} := do"]
@@ -487,7 +524,12 @@ class Tr:
         for n, _ in cfg["params"]:
             L.append(f"  let mut {lname(n)} := {lname(n)}")
         L += body
-        if cfg.get("falls_off"):
+        if cfg.get("prefix"):
+            rl = cfg["ret_local"]
+            if self.types.get(rl) != cfg["ret"]:
+                raise Missing(f"local {rl} of type {self.types.get(rl)}")
+            L.append("  return (" + ", ".join([lname(rl)] + self.ret_suffix) + ")")
+        elif cfg.get("falls_off"):
             L.append("  return ()")
         elif not (fn.body and isinstance(fn.body[-1], ast.Return)) and not any(isinstance(n, ast.Return) for n in ast.walk(fn.body[-1])):
             raise Missing("function may fall off its end")
